@@ -818,7 +818,24 @@ def r06_9(prog, rep):
         rep.fail(rid, "chkpnt/full-dump-trigger", ck.loc(), "no branch of chkpnt() selects the all-users dump")
         return
     b, si, c = trig
-    v = eval_in({ctr: cap}, c, ck)
+    st_ = {ctr: cap}
+    v = eval_in(st_, c, ck)
+    if v is None:
+        # the counter read through locals with one definition (`const size_t npending = ichkpnts;`)
+        locs_ = {l_["n"] for l_ in ck.locals}
+        defs_ = {}
+        for b_, i_, x_, line_ in cfg.all_elems():
+            if isinstance(x_, dict):
+                for l_, kind_, n_ in writes(x_):
+                    if lv(l_) in locs_:
+                        defs_.setdefault(lv(l_), []).append(n_.get("init") if kind_ == "decl" else (n_.get("r") if n_.get("k") == "bin" and n_["op"] == "=" else None))
+        for _ in range(2):
+            for nm_, ds_ in defs_.items():
+                if len(ds_) == 1 and ds_[0] is not None and nm_ not in st_:
+                    val_ = eval_in(st_, cfg.resolve(ds_[0]), ck)
+                    if val_ is not None:
+                        st_[nm_] = val_
+        v = eval_in(st_, c, ck)
     key = "chkpnt/full-dump-trigger"
     if v is None:
         rep.broken_("rule=R06.9 cannot evaluate the dump trigger `%s` at %s = %d" % (show(c), ctr, cap))
